@@ -48,7 +48,7 @@ func H_C15_camelkey() {
 }
 
 //verif:witness H_C15_refresh ok rejected
-//verif:bound C15 all real Refresh (NewPlugin/inject/injectAttribute/injectElement through the reflect shim) for every registered logger type (Logger, AsyncLogger, Discard, Console, File, RollingFile) x appender type (Discard, Console, File, RollingFile) x 17 configuration variants (valid; ${sub-tree} placeholders; level values '~', 'info~', '~error'; no appender section; unknown logger type; unknown appender type; dangling appenderRef; missing tags; ill-typed attribute; bad policy; bad level; property injection error; ${key} present; ${key} absent): returns nil or an error as specified, never panics
+//verif:bound C15 all real Refresh (NewPlugin/inject/injectAttribute/injectElement through the reflect shim) for every registered logger type (Logger, AsyncLogger, Discard, Console, File, RollingFile) x appender type (Discard, Console, File, RollingFile) x 17 configuration variants (valid; ${sub-tree} placeholders; level values '~', 'info~', '~error'; no appender section; unknown logger type; unknown appender type; unknown appenderRef type (single and as second element of an indexed list); unknown layout type; dangling appenderRef; missing tags; ill-typed attribute; bad policy; bad level; property injection error; ${key} present; ${key} absent): returns nil or an error as specified, never panics
 //verif:assume C15 the expression-text -> map step of 'name!' entries is ANTLR's (see C17); toStorage is exercised with expr.Parse replaced by a table for the texts the harness uses, validated natively against the real parser on every cross-checked path
 
 func vLoggerNeedsRefs(typ string) bool { return typ == "Logger" || typ == "AsyncLogger" }
@@ -90,7 +90,28 @@ func H_C15_refresh() {
 		cfg["logger.l1.appenderRef.ref"] = "a1"
 	}
 	wantErr := false
-	switch vChoose("variant", 17) {
+	switch vChoose("variant", 20) {
+	case 17: // an appender reference of an unknown plugin type
+		if !vLoggerNeedsRefs(ltype) {
+			return
+		}
+		cfg["logger.l1.appenderRef.type"] = "NoSuchRef"
+		wantErr = true
+	case 18: // ... as the second element of an indexed list
+		if !vLoggerNeedsRefs(ltype) {
+			return
+		}
+		delete(cfg, "logger.l1.appenderRef.ref")
+		cfg["logger.l1.appenderRef[0].ref"] = "a1"
+		cfg["logger.l1.appenderRef[1].ref"] = "a1"
+		cfg["logger.l1.appenderRef[1].type"] = "NoSuchRef"
+		wantErr = true
+	case 19: // a layout of an unknown plugin type
+		if atype == "Discard" {
+			return
+		}
+		cfg["appender.a1.layout.type"] = "NoSuchLayout"
+		wantErr = true
 	case 12: // a placeholder naming a configuration sub-tree is not a property
 		cfg["logger.l1.level"] = "${appender}"
 		wantErr = true
@@ -165,7 +186,7 @@ func H_C15_refresh() {
 }
 
 //verif:witness H_C15_inject end
-//verif:bound C15 all attribute resolution through the real Refresh for an AsyncLogger: each of bufferSize / bufferFullPolicy / level present or absent (declared defaults), values from well-typed literals incl. hex, padded forms and '1dd' with two arbitrary decimal digits, ${key} indirection, key spelling camelCase / kebab-case / snake_case, flat keys vs the inline 'logger.l1!' expression form; the created plugin's fields are compared with the configured value, else the declared default
+//verif:bound C15 all attribute resolution through the real Refresh for an AsyncLogger: each of bufferSize / bufferFullPolicy / level present or absent (declared defaults), values from well-typed literals incl. hex, padded forms and '1dd' with two arbitrary decimal digits, ${key} indirection (the reference and the property each in any of the three spellings), key spelling camelCase / kebab-case / snake_case, flat keys vs the inline 'logger.l1!' expression form; the created plugin's fields are compared with the configured value, else the declared default
 
 func vSpell(key string, mode int) string {
 	// key is camelCase; produce kebab-case or snake_case
@@ -247,7 +268,8 @@ func H_C15_inject() {
 			if inline {
 				return
 			}
-			attrs = append(attrs, attr{"level", "${myLevel}"})
+			// the reference and the property it names may be spelled differently
+			attrs = append(attrs, attr{"level", "${" + vSpell("myLevel", vChoose("refSpelling", 3)) + "}"})
 			cfg[vSpell("myLevel", spell)] = "debug"
 			wantLevel = LevelRange{MinLevel: DebugLevel, MaxLevel: MaxLevel}
 		}
